@@ -146,7 +146,18 @@ func zzC16Wrapper() {
 		// into which the defaults were then written: a panic in the handler goroutine)
 		req.Params.Arguments = json.RawMessage("null")
 	}
+	nonObject := !argsAbsent && vBool("argumentsAreNoObject")
+	if nonObject {
+		// an array, a string, a number where the object is expected: invalid under every input schema (type object)
+		req.Params.Arguments = [][]byte{vJSON([]any{"go"}), vJSON("go"), vJSON(42.0), vJSON(true)}[vChoice("nonObjectKind", 4)]
+	}
 	res, herr := th(context.Background(), req)
+	if nonObject {
+		vAssert(calls == 0, "C16.handler-not-run-on-invalid-input")
+		vAssert(herr == nil && res != nil && res.IsError, "C16.invalid-input-is-a-tool-level-error")
+		vReach("non-object")
+		return
+	}
 
 	// ---- input side
 	if len(env.events) >= 2 {
